@@ -92,6 +92,11 @@ func (lrw *limitedResponseWriter) WriteHeader(statusCode int) {
 	if lrw.wroteHeader {
 		return
 	}
+	// Informational (1xx) responses are sent right away and are not the final status
+	if statusCode >= 100 && statusCode <= 199 && statusCode != http.StatusSwitchingProtocols {
+		lrw.ResponseWriter.WriteHeader(statusCode)
+		return
+	}
 	// Just record the status code, don't write it yet
 	lrw.statusCode = statusCode
 }
@@ -106,6 +111,8 @@ func (lrw *limitedResponseWriter) Hijack() (net.Conn, *bufio.ReadWriter, error) 
 
 // Support http.Flusher if underlying supports it
 func (lrw *limitedResponseWriter) Flush() {
+	// Flushing sends the header: it has to carry the recorded status, not an implicit 200
+	lrw.ensureHeaderWritten()
 	if f, ok := lrw.ResponseWriter.(http.Flusher); ok {
 		f.Flush()
 	}
@@ -182,6 +189,12 @@ func newSizeLimitMiddleware(name string, cfg map[string]interface{}) (Middleware
 
 			// Call next handler with the limited response writer
 			next.ServeHTTP(lrw, r)
+
+			// A handler may set a status and write no body (204, 304, redirects, HEAD,
+			// empty errors): the recorded status still has to reach the client.
+			if !lrw.wroteHeader && lrw.statusCode != 0 {
+				lrw.ensureHeaderWritten()
+			}
 		})
 	}, nil
 }
